@@ -173,44 +173,38 @@ func (i *Injector) injectSelfMonitor(cfg *config.Config) {
 }
 
 func (i *Injector) marshal(cfg *config.Config) ([]byte, error) {
-	bTokens := make([]string, 0)
-	password := make([]string, 0)
-
-	for _, w := range cfg.RemoteWriteConfigs {
-		if w.HTTPClientConfig.BearerToken != "" {
-			bTokens = append(bTokens, string(w.HTTPClientConfig.BearerToken))
-		}
-
-		if w.HTTPClientConfig.BasicAuth != nil && w.HTTPClientConfig.BasicAuth.Password != "" {
-			password = append(password, string(w.HTTPClientConfig.BasicAuth.Password))
-		}
-
-	}
-
-	for _, w := range cfg.RemoteReadConfigs {
-		if w.HTTPClientConfig.BearerToken != "" {
-			bTokens = append(bTokens, string(w.HTTPClientConfig.BearerToken))
-		}
-
-		if w.HTTPClientConfig.BasicAuth != nil && w.HTTPClientConfig.BasicAuth.Password != "" {
-			password = append(password, string(w.HTTPClientConfig.BasicAuth.Password))
-		}
-	}
-
 	gen, err := yaml.Marshal(&cfg)
 	if err != nil {
 		return nil, errors.Wrapf(err, "marshal config failed")
 	}
 
-	data := string(gen)
-	for _, token := range bTokens {
-		data = strings.Replace(data, "bearer_token: <secret>", fmt.Sprintf("bearer_token: %s", token), 1)
+	// yaml.Marshal hides every secret as "<secret>".
+	// only scrape_configs is changed by injector, all other sections (global, rule_files, alerting,
+	// remote_write, remote_read ...) are taken from the raw content, so they are kept as they are, including secrets
+	injected := yaml.MapSlice{}
+	if err := yaml.Unmarshal(gen, &injected); err != nil {
+		return nil, errors.Wrapf(err, "unmarshal injected config")
 	}
 
-	for _, pd := range password {
-		data = strings.Replace(data, "password: <secret>", fmt.Sprintf("password: %s", pd), 1)
+	raw := yaml.MapSlice{}
+	if err := yaml.Unmarshal(i.curCfg.RawContent, &raw); err != nil {
+		return nil, errors.Wrapf(err, "unmarshal raw config")
 	}
-	return []byte(data), nil
+
+	out := yaml.MapSlice{}
+	for _, item := range raw {
+		if item.Key != "scrape_configs" {
+			out = append(out, item)
+		}
+	}
+
+	for _, item := range injected {
+		if item.Key == "scrape_configs" {
+			out = append(out, item)
+		}
+	}
+
+	return yaml.Marshal(out)
 }
 
 func (i *Injector) inject() (err error) {
